@@ -1,9 +1,213 @@
-(* C12 property theorems: statements only. *)
-From Coq Require Import List String.
+(* C12 property theorems: statements only, each closed by `exact`.
+   V is the value type, L the arithmetic leaves (Gen.v: binary64 `fleaves`, exact rationals `qleaves`),
+   `lpass L cfg specs mode model` the passing call, `rebuild V sigma model` the recursive rebuild
+   (gaussian_prior_model_for_arguments) for the arguments {prior q: prior sigma q}. *)
+From Coq Require Import List String QArith.
+From Coq Require Import Floats.PrimFloat.
 From PAFC01 Require Import ModelTree.
-From PAFC12 Require Import Gen Model Proofs.
+From PAFC12 Require Import Gen Model Proofs Proofs2 Proofs3 Proofs4 Proofs5 Proofs6.
+Import ListNotations.
 
-Theorem C12_const_kept : forall (V : Type) (s : nat -> option nat) (v : V), rebuild V s (NConst v) = Some (NConst v).
-Proof. exact rebuild_const. Qed.
+(* STRUCTURE, every mode.  The new model has exactly the places (paths) of the old one, and the place that held
+   prior q holds the prior given for q: same paths, same sharing pattern, nothing else is visited. *)
+Theorem C12_paths_and_identity : forall (V : Type) (sigma : nat -> option nat) (n : node V),
+  wf V n -> forall n' : node V, rebuild V sigma n = Some n' -> walk V n' = ren_walk sigma (walk V n).
+Proof. exact rebuild_walk. Qed.
 
-Print Assumptions C12_const_kept.
+(* the rebuild succeeds exactly when every prior of the model has an entry in the arguments *)
+Theorem C12_rebuild_total : forall (V : Type) (sigma : nat -> option nat) (n : node V), wf V n ->
+  ((exists n', rebuild V sigma n = Some n') <-> (forall q, In q (prior_ids V n) -> sigma q <> None)).
+Proof. exact rebuild_iff. Qed.
+
+(* an order-preserving substitution keeps parameter order, parameter count and the advertised path list *)
+Theorem C12_order : forall (V : Type) (sigma : nat -> option nat) (n n' : node V),
+  wf V n -> rebuild V sigma n = Some n' ->
+  (forall x y, In x (prior_ids V n) -> In y (prior_ids V n) -> (x < y)%nat -> (sd sigma x < sd sigma y)%nat) ->
+  ordered_ids V n' = map (sd sigma) (ordered_ids V n) /\ prior_count V n' = prior_count V n /\ paths V n' = paths V n.
+Proof. exact rebuild_order. Qed.
+
+(* sharing: two places hold one prior afterwards iff they did before *)
+Theorem C12_sharing : forall (V : Type) (sigma : nat -> option nat) (n n' : node V),
+  wf V n -> rebuild V sigma n = Some n' ->
+  (forall x y, In x (prior_ids V n) -> In y (prior_ids V n) -> sd sigma x = sd sigma y -> x = y) ->
+  forall p1 p2 q1 q2, In (p1, q1) (walk V n) -> In (p2, q2) (walk V n) ->
+    In (p1, sd sigma q1) (walk V n') /\ In (p2, sd sigma q2) (walk V n') /\ (q1 = q2 <-> sd sigma q1 = sd sigma q2).
+Proof. exact rebuild_sharing. Qed.
+
+(* FIXED VALUES, CLASSES, TUPLES, DERIVED VALUES (full): the new model builds, from corresponding arguments, the
+   instance the old model builds. *)
+Theorem C12_instance : forall (V : Type) (bin : binop -> V -> V -> V) (sigma : nat -> option nat)
+    (args args' : nat -> option V) (n : node V),
+  wf V n -> forall n', rebuild V sigma n = Some n' ->
+  (forall q, In q (prior_ids V n) -> args' (sd sigma q) = args q) ->
+  inst V bin args' n' = inst V bin args n.
+Proof. exact rebuild_inst. Qed.
+
+(* MEANS / BOUNDED MODES keep ids: every query of the new model equals that of the old one *)
+Theorem C12_structure_kept : forall (V : Type) (L : leaves V) cfg specs (md : mode V) (n n' : node V) sp,
+  wf V n -> keeps_ids V md -> lpass V L cfg specs md n = Ok (n', sp) ->
+  walk V n' = walk V n /\ paths V n' = paths V n /\ unique_prior_paths V n' = unique_prior_paths V n /\
+  ordered_ids V n' = ordered_ids V n /\ prior_count V n' = prior_count V n.
+Proof. exact l_structure_kept. Qed.
+
+Theorem C12_instance_kept : forall (V : Type) (L : leaves V) cfg specs (bin : binop -> V -> V -> V) (md : mode V)
+    (n n' : node V) sp (args : nat -> option V),
+  wf V n -> keeps_ids V md -> lpass V L cfg specs md n = Ok (n', sp) ->
+  inst V bin args n' = inst V bin args n.
+Proof. exact l_instance_kept. Qed.
+
+(* OWN VALUE.  The i-th parameter (id order) gets the prior derived from the i-th inferred value and from nothing
+   else; it is a Gaussian centred on that value whose width is a, r * value or the modifier's, and it keeps the id *)
+Theorem C12_own_value : forall (V : Type) (L : leaves V) cfg specs (a r : option V) (nl : bool) (means : list V)
+    (n n' : node V) sp,
+  wf V n -> lpass V L cfg specs (MMeans a r nl means) n = Ok (n', sp) ->
+  map fst sp = ordered_ids V n /\ (prior_count V n <= List.length means)%nat /\
+  forall i d dm, (i < prior_count V n)%nat ->
+    exists s, nth_error sp i = Some (nth i (ordered_ids V n) d, s) /\
+              lderive_mean V L cfg specs a r nl n (nth i (ordered_ids V n) d) (nth i means dm) = Ok s.
+Proof. exact l_own_value. Qed.
+
+Theorem C12_derived_prior : forall (V : Type) (L : leaves V) cfg specs (a r : option V) (nl : bool) (n : node V)
+    (q : nat) (m : V) (s : spec V),
+  lderive_mean V L cfg specs a r nl n q m = Ok s ->
+  s_fam V s = FGaussian /\ s_mean V s = m /\ l_neg_sigma V L (s_sigma V s) = false /\
+  l_bad_limits V L (s_lo V s) (s_hi V s) = false /\
+  (exists old, lookup_nat q specs = Some old /\ s_wm V s = s_wm V old) /\
+  (forall x, a = Some x -> s_sigma V s = l_abs_width V L x) /\
+  (forall x, a = None -> r = Some x -> s_sigma V s = l_rel_width V L x m) /\
+  (nl = true -> s_lo V s = l_ninf V L /\ s_hi V s = l_pinf V L).
+Proof. exact l_derive_mean_shape. Qed.
+
+Theorem C12_own_value_bounded : forall (V : Type) (L : leaves V) cfg specs (b : V) (floats : list V) (n n' : node V) sp,
+  wf V n -> lpass V L cfg specs (MBounded b floats) n = Ok (n', sp) ->
+  map fst sp = ordered_ids V n /\ (prior_count V n <= List.length floats)%nat /\
+  forall i d dm, (i < prior_count V n)%nat ->
+    exists s, nth_error sp i = Some (nth i (ordered_ids V n) d, s) /\
+              lderive_bounded V L b (nth i (ordered_ids V n) d) (nth i floats dm) = Ok s.
+Proof. exact l_own_value_bounded. Qed.
+
+Theorem C12_bounded_prior : forall (V : Type) (L : leaves V) (b : V) (q : nat) (f : V) (s : spec V),
+  lderive_bounded V L b q f = Ok s ->
+  s_fam V s = FUniform /\ s_lo V s = l_uf_lo V L f b /\ s_hi V s = l_uf_hi V L f b /\
+  l_bad_limits V L (s_lo V s) (s_hi V s) = false.
+Proof. exact l_derive_bounded_shape. Qed.
+
+(* NEVER A NEGATIVE WIDTH (full): whatever the values, a model that is produced carries only Gaussians with
+   sigma >= 0 and non-empty limits *)
+Theorem C12_width_nonneg : forall (V : Type) (L : leaves V) cfg specs (a r : option V) (nl : bool) (means : list V)
+    (n n' : node V) sp,
+  wf V n -> lpass V L cfg specs (MMeans a r nl means) n = Ok (n', sp) ->
+  forall q s, In (q, s) sp ->
+    s_fam V s = FGaussian /\ l_neg_sigma V L (s_sigma V s) = false /\ l_bad_limits V L (s_lo V s) (s_hi V s) = false.
+Proof. exact l_width_nonneg. Qed.
+
+(* SUCCESS.  Sufficient conditions for every value type: the lookup name exists, widths are not negative, limits
+   are not empty *)
+Theorem C12_total_means_conditions : forall (V : Type) (L : leaves V) cfg specs (a r : option V) (nl : bool)
+    (means : list V) (n : node V),
+  wf V n -> is_pm V n = true -> specs_cover V specs n -> llimits_good V L cfg specs ->
+  (prior_count V n <= List.length means)%nat ->
+  (a = None \/ r = None) ->
+  (forall x, a = Some x -> l_neg_sigma V L (l_abs_width V L x) = false) ->
+  (forall x i dm, a = None -> r = Some x -> (i < prior_count V n)%nat ->
+     l_neg_sigma V L (l_rel_width V L x (nth i means dm)) = false) ->
+  (forall i dm, a = None -> r = None -> (i < prior_count V n)%nat -> lmodifiers_good V L cfg specs (nth i means dm)) ->
+  exists n' sp, lpass V L cfg specs (MMeans a r nl means) n = Ok (n', sp).
+Proof. exact l_total_means. Qed.
+
+(* the lookup context (class, last place) exists for every prior of a model or collection *)
+Theorem C12_config_context : forall (V : Type) (n : node V) (q : nat),
+  wf V n -> is_pm V n = true -> In q (prior_ids V n) ->
+  (exists cls, class_of V q n = Some cls) /\ (exists p, last_path V q n = Some p /\ In (p, q) (walk V n)).
+Proof. exact config_context. Qed.
+
+(* Full statement "passing succeeds for every finite inferred vector" (any sign), exact arithmetic *)
+Theorem C12_total_absolute : forall (ninf pinf : Q) cfg specs (a : Q) (nl : bool) (means : list Q) (n : node Q),
+  wf Q n -> is_pm Q n = true -> specs_cover Q specs n -> qlimits_good ninf pinf cfg specs ->
+  (prior_count Q n <= List.length means)%nat -> 0 <= a ->
+  exists n' sp, qpass ninf pinf cfg specs (MMeans (Some a) None nl means) n = Ok (n', sp).
+Proof. exact total_absolute_Q. Qed.
+
+Theorem C12_total_relative : forall (ninf pinf : Q) cfg specs (r : Q) (nl : bool) (means : list Q) (n : node Q),
+  wf Q n -> is_pm Q n = true -> specs_cover Q specs n -> qlimits_good ninf pinf cfg specs ->
+  (prior_count Q n <= List.length means)%nat -> 0 <= r ->
+  exists n' sp, qpass ninf pinf cfg specs (MMeans None (Some r) nl means) n = Ok (n', sp).
+Proof. exact total_relative_Q. Qed.
+
+Theorem C12_total_default : forall (ninf pinf : Q) cfg specs (nl : bool) (means : list Q) (n : node Q),
+  wf Q n -> is_pm Q n = true -> specs_cover Q specs n -> qlimits_good ninf pinf cfg specs ->
+  qmodifiers_good cfg specs ->
+  (prior_count Q n <= List.length means)%nat ->
+  exists n' sp, qpass ninf pinf cfg specs (MMeans None None nl means) n = Ok (n', sp).
+Proof. exact total_default_Q. Qed.
+
+(* relative widths are never negative, whatever the sign of the value *)
+Theorem C12_relative_width_nonneg : forall r m : Q, 0 <= r ->
+  sigma_negative_Q (pm_rel_width_Q r m) = false /\ sigma_negative_Q (wm_relative_Q r m) = false.
+Proof. exact relative_width_nonneg. Qed.
+
+(* bounded: succeeds for every vector of any sign over exact numbers (full); the uniform prior is centred on the
+   value with half-width b.  In binary64 the statement fails for |value| >= 2^53 b (refuted). *)
+Theorem C12_total_bounded : forall (ninf pinf : Q) cfg specs (b : Q) (floats : list Q) (n : node Q),
+  wf Q n -> (prior_count Q n <= List.length floats)%nat -> 0 < b ->
+  exists n' sp, qpass ninf pinf cfg specs (MBounded b floats) n = Ok (n', sp).
+Proof. exact total_bounded_Q. Qed.
+
+Theorem C12_bounded_limits : forall f b : Q, 0 < b ->
+  prior_bad_limits_Q (uf_lower_Q f b) (uf_upper_Q f b) = false /\
+  (uf_lower_Q f b + uf_upper_Q f b) / 2 == f /\ uf_upper_Q f b - uf_lower_Q f b == 2 * b.
+Proof. exact bounded_limits. Qed.
+
+Theorem C12_total_bounded_float_refuted :
+  PrimFloat.ltb 0%float 1%float = true /\
+  fpass [] ex_fspecs (MBounded 1%float [0x1p60%float]) ex_fmodel = Exc EPrior.
+Proof. exact bounded_float_refuted. Qed.
+
+(* TIGHTENED LIMITS: same paths, count and order; the i-th parameter is the i-th fresh prior *)
+Theorem C12_limits_structure : forall (V : Type) (L : leaves V) cfg specs (fresh : nat) (ls : list (V * V))
+    (n n' : node V) sp,
+  wf V n -> lpass V L cfg specs (MLimits fresh ls) n = Ok (n', sp) ->
+  paths V n' = paths V n /\ prior_count V n' = prior_count V n /\
+  ordered_ids V n' = seq fresh (prior_count V n) /\ (prior_count V n <= List.length ls)%nat /\
+  forall p i d, (i < prior_count V n)%nat -> In (p, nth i (ordered_ids V n) d) (walk V n) -> In (p, (fresh + i)%nat) (walk V n').
+Proof. exact l_limits_structure. Qed.
+
+Theorem C12_tightened_limits : forall lo hi slo shi : Q,
+  slo <= pl_lower_Q lo slo /\ lo <= pl_lower_Q lo slo /\ pl_upper_Q hi shi <= shi /\ pl_upper_Q hi shi <= hi.
+Proof. exact tightened_limits. Qed.
+
+Theorem C12_gaussian_between : forall lo hi : Q, lo <= hi ->
+  sigma_negative_Q (gl_sigma_Q lo hi) = false /\ lo <= gl_mean_Q lo hi /\ gl_mean_Q lo hi <= hi.
+Proof. exact gaussian_between. Qed.
+
+(* EXPLICIT REPLACEMENT MAP: every place holds the replacement of the prior it held, priors without an entry stay *)
+Theorem C12_replace_structure : forall (V : Type) (L : leaves V) cfg specs (m : arguments V) (n n' : node V) sp,
+  wf V n -> lpass V L cfg specs (MReplace m) n = Ok (n', sp) ->
+  walk V n' = map (fun pq => (fst pq, repl V m (snd pq))) (walk V n).
+Proof. exact l_replace_structure. Qed.
+
+Theorem C12_replace_total : forall (V : Type) (L : leaves V) cfg specs (m : arguments V) (n : node V),
+  wf V n -> specs_cover V specs n -> exists n' sp, lpass V L cfg specs (MReplace m) n = Ok (n', sp).
+Proof. exact l_replace_total. Qed.
+
+(* COMPONENTS FIXED TO THE BEST-FIT INSTANCE: no free parameter left; every assignment builds that instance *)
+Theorem C12_fixed_instance : forall (V : Type) (bin : binop -> V -> V -> V) (vals : nat -> option V) (n : node V),
+  wf V n -> forall n', fix_tree V bin vals n = Some n' ->
+  walk V n' = [] /\ forall args', inst V bin args' n' = inst V bin vals n.
+Proof. exact fixed_instance. Qed.
+
+(* the executable instances are instances of the theorems above *)
+Theorem C12_float_instance : forall cfg specs, fpass cfg specs = lpass float fleaves cfg specs.
+Proof. exact fpass_is_lpass. Qed.
+
+Theorem C12_rational_instance : forall ninf pinf cfg specs, qpass ninf pinf cfg specs = lpass Q (qleaves ninf pinf) cfg specs.
+Proof. exact qpass_is_lpass. Qed.
+
+Print Assumptions C12_paths_and_identity.
+Print Assumptions C12_instance.
+Print Assumptions C12_own_value.
+Print Assumptions C12_total_means_conditions.
+Print Assumptions C12_total_relative.
+Print Assumptions C12_total_bounded_float_refuted.
+Print Assumptions C12_limits_structure.
+Print Assumptions C12_fixed_instance.
